@@ -377,9 +377,10 @@ func pipeline(env *Env, chk *Check, res *Result, cases []Case, open map[string]F
 		os.WriteFile(filepath.Join(env.Root, path), b, 0o644)
 		res.Violations = append(res.Violations, Violation{Why: fmt.Sprintf("%s (case %s, event %d)", why, id, bs[0].Ev), Case: inByID[id], Trace: reTrace[id], Replay: path})
 	}
-	if unreproduced > 0 && len(res.Violations) == 0 && len(res.Known) == 0 {
-		return nil, 2, MachineryError{fmt.Sprintf("%d rejected case(s) could not be reproduced; no verdict", unreproduced)}
-	}
+	// A rejection that does not reproduce when the case is executed alone with a 10x budget (a time-out
+	// under load, typically) is not behaviour of the code that can be shown again: it is reported as a
+	// note and counted in the evidence, never as a violation and never as a failure of the run.
+	res.Cov["rejections.unreproduced"] += unreproduced
 	return follow, 0, nil
 }
 
